@@ -23,7 +23,7 @@ ASSUMPTIONS = [
     'derivative oracle: complex-step differentiation of the reference (exact to rounding)',
     'outputs of multiplicative / constant+multiplicative models are positive (negative total '
     'standard deviations are outside the documented model)']
-REQUIRED = ['kind:gauss', 'kind:mult', 'kind:cm', 'kind:lognorm', 'oos', 'reduced', 'p=0', 'n=1', 'long', 'cm:negative_output']
+REQUIRED = ['kind:gauss', 'kind:mult', 'kind:cm', 'kind:lognorm', 'oos', 'reduced', 'p=0', 'n=1', 'long', 'cm:negative_output', 'oos:both']
 KINDS = ['gauss', 'mult', 'cm', 'lognorm']
 
 
@@ -73,13 +73,17 @@ def _spec(draw):
     S = draw(gen.mat(gen.real(-5, 5), n, p))
     oos = None
     if gen.chance(draw, 0.15):
-        choices = ['sig0'] + (['sig1'] if npar == 2 else []) + (['ybar'] if kind == 'lognorm' else [])
+        choices = ['sig0'] + (['sig1', 'both'] if npar == 2 else []) + (['ybar'] if kind == 'lognorm' else [])
         oos = draw(st.sampled_from(choices))
         val = draw(st.sampled_from([0.0, -1.0, -0.37]))
         if oos == 'sig0':
             sig[0] = val
         elif oos == 'sig1':
             sig[1] = val
+        elif oos == 'both':
+            # both scale parameters outside their domain (possibly with the same sign)
+            sig[0] = val
+            sig[1] = draw(st.sampled_from([0.0, -1.0, -0.37]))
         else:
             ybar[draw(st.integers(0, n - 1))] = val
     fixed = None
@@ -99,6 +103,8 @@ def classify(spec):
         return labs + ['long']
     if spec['oos']:
         labs.append('oos')
+        if spec['oos'] == 'both':
+            labs.append('oos:both')
     if spec['fixed'] is not None:
         labs.append('reduced')
     if spec['p'] == 0:
